@@ -166,3 +166,21 @@ def run(cx):
         r = [s for bl in hb.blocks if not bl.get("cleanup") for s in bl["s"] if s["k"] == "assign" and s["lhs"] == 0]
         ob.require(hb.local_ty(0) == "()" and not [c for c in hb.calls() if name_matches(c.fn, PANIC_CALLS) and not hb.is_cleanup(c.bb) and not is_tracing(c)],
                    "handle/returns-unit", "BiStreamRequestHandler::handle can fail or panic on a request error", hb.path)
+
+    with cx.ob("C12.6", "R-CALLERS", "abandoning one RPC never affects the others: nothing on the per-request path (either side) closes the connection or removes the peer") as ob:
+        per_request = [f"{RH}::BiStreamRequestHandler::handle", f"{RH}::BiStreamRequestHandler::do_handle", f"{WIRE}::read_request", f"{WIRE}::write_response",
+                       f"{WIRE}::write_request", f"{WIRE}::read_response", f"{PEER}::do_rpc", cx.impl_method(PEER, "Service", "call").path, cx.impl_method(f"{CONN}::SendStream", "Drop", "drop").path]
+        for e in per_request:
+            cx.body(e)
+        reach = prog.reachable_bodies(per_request, extra_edges=drop_edges(prog))
+        ob.count(len(reach))
+        bad = 0
+        for p in reach:
+            b = prog.body(p)
+            for c in b.calls():
+                if name_matches(c.fn, (f"{CONN}::Connection::close", "anemo::endpoint::Endpoint::close", "quinn::connection::Connection::close", "quinn::endpoint::Endpoint::close",
+                                       "anemo::network::connection_manager::ActivePeers::remove", "anemo::network::connection_manager::ActivePeers::remove_with_stable_id")):
+                    bad += 1
+                    ob.fail("refuted", f"per-request-close/{p}/{c.fn.split('::')[-1]}", f"{p} calls {c.fn}: one (abandoned or malformed) RPC would take down every other RPC on the connection", p, b.loc(c.bb))
+        if not bad:
+            ob.matched += 1
